@@ -6,6 +6,16 @@ import subprocess, sys, os
 # (VERIF_REPO), leaving /repo alone -- used while other work builds from /repo concurrently
 if sys.argv[1] == "--tree":
     tree = os.path.abspath(sys.argv[2]); ids = sys.argv[3:]
+    # bring the scratch worktree to /repo's current HEAD (fix commits made meanwhile) and re-apply the change
+    pf = tree + "-out/patch.diff"
+    if not os.path.exists(pf):
+        pf = os.path.join(os.path.dirname(os.path.dirname(os.path.abspath(__file__))), "seeded", os.path.basename(tree)[5:], "patch.diff")
+    head = subprocess.run(["git", "-C", "/repo", "rev-parse", "HEAD"], capture_output=True, text=True).stdout.strip()
+    def tg(*a): return subprocess.run(["git", "-C", tree] + list(a), capture_output=True, text=True)
+    tg("checkout", "-q", "--", "."); tg("checkout", "-q", "--detach", head)
+    r = tg("apply", pf)
+    if r.returncode != 0:
+        print("patch does not apply to current HEAD:", r.stderr); sys.exit(2)
     env = dict(os.environ, VERIF_REPO=tree, VERIF_EVIDENCE_DIR="/tmp/seed-evidence", VERIF_REPLAY_DIR="/tmp/seed-replays",
                VERIF_SEED=os.environ.get("VERIF_SEED", "1"))
     for i in ids:
